@@ -128,14 +128,18 @@ def snap_key(snap):
 
 
 class Evaluator(ObjectiveEvaluate):
-    """the objective: a deterministic function of the parameter assignment, logging every call"""
+    """the objective the USER configures: a subclass of ObjectiveEvaluate whose evaluate() hands reference data kept
+    by the evaluator to the metrics (ospec['reference']: None, 'input' or a number: the metric becomes the distance
+    of its plain value to the reference); a deterministic function of the parameter assignment; every call is logged.
+    The driver judges with THIS object (evaluate / __call__), never with the bare Objective inside it."""
 
     def __init__(self, ospec, input_snap, events, working, expected):
         self.ospec, self.input_snap, self.events, self.working = ospec, input_snap, events, working
         self.expected = expected        # per node: names of the search-space parameters of its operation
         self.silent = False
         self.objects = []
-        objective = Objective({'m%d' % i: (lambda g, k=k: self._metric(k, g)) for i, k in enumerate(ospec['metrics'])},
+        objective = Objective({'m%d' % i: (lambda g, k=k, reference=None: self._metric(k, g, reference))
+                               for i, k in enumerate(ospec['metrics'])},
                               is_multi_objective=ospec['multi'])
         super().__init__(objective)
 
@@ -165,7 +169,7 @@ class Evaluator(ObjectiveEvaluate):
             return t
         raise ValueError(kind)
 
-    def _metric(self, kind, graph):
+    def _metric(self, kind, graph, reference=None):
         snap = snapshot(graph)
         fail = self.ospec.get('fail')
         if fail == 'mod3' and int(math.floor(sum(num(v) for d in snap for v in d.values()) * 4)) % 3 == 0:
@@ -174,10 +178,16 @@ class Evaluator(ObjectiveEvaluate):
             raise ValueError('objective fails on this assignment')
         if fail == 'on-init' and snap_key(snap) == snap_key(self.input_snap):
             raise ValueError('objective fails on this assignment')
-        return rescale(self.ospec.get('scale'), q64(self._value(kind, snap)))
+        v = q64(self._value(kind, snap))
+        if reference == 'input':
+            v = abs(v - q64(self._value(kind, self.input_snap)))
+        elif reference is not None:
+            v = abs(v - reference)
+        return rescale(self.ospec.get('scale'), v)
 
     def evaluate(self, graph):
-        fit = super().evaluate(graph)
+        # the documented extension point: pass the evaluator's reference data to the metrics
+        fit = self._objective(graph, reference=self.ospec.get('reference'))
         if isinstance(fit, MultiObjFitness):
             r = ['M'] + [float(x) for x in fit.values]
         elif fit.valid:
@@ -619,11 +629,12 @@ def gen_objective(r, multi):
     single = ['sum', 'sum', 'sum', 'neg', 'neg', 'quad', 'quad', 'quad', 'initmin', 'const', 'zero', 'near', 'nearneg']
     fail = r.choice([None, None, None, None, None, None, 'mod3', 'mod3', 'on-set', 'on-init'])
     scale = r.choice([None, None, None, None, 'huge', 'tiny'])
+    reference = r.choice([None, None, None, None, 'input', 4.0])
     if multi:
         return {'multi': True, 'metrics': r.choice([['sum', 'quad'], ['sum', 'neg'], ['quad', 'initmin'], ['initmin', 'const'],
                                                     ['neg', 'quad'], ['sum', 'sum'], ['near', 'initmin'], ['near', 'initmin']]),
-                'fail': fail, 'scale': scale}
-    return {'multi': False, 'metrics': [r.choice(single)], 'fail': fail, 'scale': scale}
+                'fail': fail, 'scale': scale, 'reference': reference}
+    return {'multi': False, 'metrics': [r.choice(single)], 'fail': fail, 'scale': scale, 'reference': reference}
 
 
 def discrete_combinations(sspec, gspec):
@@ -788,6 +799,13 @@ def corner_cases():
             # every change is worse in both objectives: the input dominates whatever the search finds
             out.append({'space': sp1, 'graph': one, 'objective': {'multi': True, 'metrics': ['near', 'initmin'], 'fail': None, 'scale': scale},
                         'tuner': {'kind': kind, 'iterations': 4, 'deviation': 0.05}, 'corner': 'dominating-input-' + scale})
+    # the objective is a user subclass of ObjectiveEvaluate whose evaluate() passes reference data: the input is
+    # optimal (distance 0 to its own plain value), the bare Objective would prefer smaller sums
+    for kind in KINDS:
+        out.append({'space': sp1, 'graph': one, 'objective': {'multi': False, 'metrics': ['sum'], 'fail': None, 'reference': 'input'},
+                    'tuner': {'kind': kind, 'iterations': 3, 'deviation': 0.0}, 'corner': 'evaluator-reference-input'})
+        out.append({'space': sp1, 'graph': one_init, 'objective': {'multi': False, 'metrics': ['sum'], 'fail': None, 'reference': 4.0},
+                    'tuner': {'kind': kind, 'iterations': 3, 'deviation': 0.05}, 'corner': 'evaluator-reference-4'})
     sps = {'scale | shift': {'p': ['uniform', 0.5, 1.0], 'max depth': ['uniformint', 1, 3]},
            'x || y': {'learning rate': ['uniform', 0.25, 0.75]}}
     gs = [{'name': 'scale | shift', 'params': {'p': 1.0, 'note': 'A'}, 'parents': [1]},
@@ -857,7 +875,7 @@ def facts(case, run):
     return dict(tuner=case['tuner']['kind'], entry='tune_node' if case.get('entry') else 'tune', input_mutated=run['input_mutated'],
                 multi=case['objective']['multi'], nodes=len(case['graph']),
                 iterations=case['tuner']['iterations'], objective='+'.join(case['objective']['metrics']),
-                fail=case['objective'].get('fail'), scale=case['objective'].get('scale'), deviation=case['tuner']['deviation'],
+                fail=case['objective'].get('fail'), scale=case['objective'].get('scale'), reference=case['objective'].get('reference'), deviation=case['tuner']['deviation'],
                 tunable=has_tunable(case), raised=obs['raised'] is not None,
                 outcome=('raised' if obs['raised'] else 'multi' if obs['multi'] else 'init-returned' if ret_init else 'tuned-returned'),
                 evaluations=min(len(evals), 50) // 5 * 5)
@@ -932,7 +950,8 @@ def run(ctx):
                 'parameter name with tunable nodes 10..) for Simultaneous / Optuna, and a group driving the second entry point '
                 'SequentialTuner.tune_node(graph, node_index); operation names may contain the label separators (" | ", " || "), '
                 'parameter names spaces; ranges and objective values also at extreme magnitudes (log-uniform [1e-9,1e-7] / [1e-12,1e-10], '
-                'uniform [1e6,1e6+5], integers around 2^31; objectives offset by 2^30 or scaled by 2^-40); distinct = distinct (space, graph, objective, tuner config); '
+                'uniform [1e6,1e6+5], integers around 2^31; objectives offset by 2^30 or scaled by 2^-40); the objective is always a user '
+                'subclass of ObjectiveEvaluate overriding evaluate(), in a third of the cases passing reference data that changes the metric; distinct = distinct (space, graph, objective, tuner config); '
                 'non-trivial = something to tune and tune() returned')
     ctx.trusted_extra = [
         'hyperopt / optuna / iOpt are arbitrary proposers to the model: their proposals are inferred from the logged '
